@@ -361,7 +361,7 @@ fn text_formats(rep: &Report) {
                         rows.push(ods::ORow { cells: rc, repeat: 1 });
                         r += 1;
                     }
-                    ods::write(&ods::OBook { sheets: vec![ods::OSheet { name: "S".into(), rows, display: None }], indent: mask % 4 == 3, ..Default::default() }, Method::Deflated)
+                    ods::write(&ods::OBook { sheets: vec![ods::OSheet { name: "S".into(), rows, display: None }], indent: mask % 4 == 3, cell_attr_order: ((mask + ti as u32) % 3) as u8, row_wrappers: ((mask / 2 + ti as u32) % 4) as u8, ..Default::default() }, Method::Deflated)
                 };
                 rep.eval(1);
                 let res = guarded(|| -> Result<Range<String>, String> {
